@@ -78,6 +78,10 @@ Docs == <<
                             <<EOF>> >>],
     \* 15  parse  ["<!DOCTYPE html><table>a\u0000b</table>"]        error token and NUL token queued together; text pending
     [bytes |-> FALSE, frag |-> "", reads |-> << <<DT, S("table"), C(<<97>>), X("invalid-codepoint"), C(<<0>>), C(<<98>>), E("table")>>,
+                            <<EOF>> >>],
+    \* 16  parseFragment(container=div)  ["<p>a<table>b</table>c"]     the tree depends on the compatibility mode (reset per call)
+    [bytes |-> FALSE, frag |-> "div", reads |-> << <<S("p"), C(<<97>>), S("table"), C(<<98>>), E("table")>>,
+                            <<C(<<99>>)>>,
                             <<EOF>> >>]
 >>
 
